@@ -405,6 +405,24 @@ def check(chk):
                 chk.ob("DEAD-1", "chained comparison `%s` in %s is satisfiable" % (short(x, 60), f.qualname), why is None,
                        f.where(x), detail=why or "", construct=f.ident, text="dead guard " + short(x, 60))
 
+    # ------------------------------------------------------------- DOM-17 (refused, never clamped)
+    # a request beyond a configured limit is refused (DriverLimitsError in the verifying getters), never quietly reduced to the limit: no
+    # device that drives coils (drivers, flippers, autofires, kickbacks, the platform controller) bounds a value with min()/max() against a
+    # max_* setting of a coil on its way to the getters - a clamp hides the misconfiguration the limit exists to report
+    LIM = ("max_pulse_ms", "max_pulse_power", "max_hold_power", "max_hold_duration")
+    n_cl = 0
+    for rel_ in ("mpf/devices/driver.py", "mpf/devices/flipper.py", "mpf/devices/autofire.py", "mpf/devices/kickback.py", "mpf/core/platform_controller.py",
+                 "mpf/platforms/driver_light_platform.py", "mpf/devices/dual_wound_coil.py"):
+        if rel_ not in repo.modules:
+            continue
+        for fn_ in repo.modules[rel_].all_funcs():
+            n_cl += 1
+            for c_ in fn_.calls():
+                if isinstance(c_.func, ast.Name) and c_.func.id in ("min", "max") and any(l_ in src(c_) for l_ in LIM):
+                    chk.ob("DOM-17", "a value beyond a coil's configured limit is refused, not clamped to the limit", False, fn_.where(c_),
+                           detail="%s bounds a value with %s: the verifying getter downstream never sees the excess" % (fn_.qualname, short(c_, 70)),
+                           construct=fn_.ident, text="clamp against a coil limit in " + fn_.name)
+    chk.ob("DOM-17", "functions of the coil-driving devices examined for clamps against max_* limits (%d)" % n_cl, n_cl >= 50, "mpf/devices/driver.py:1", nontrivial=False)
     # ------------------------------------------------------------- PAIR-10
     from sa.helpers import delay_add_only_schedules
     delay_add_only_schedules(chk, "PAIR-10")
@@ -551,6 +569,7 @@ def battery():
     from sa.battery import M
     D = DRV
     return [
+        M("flipper pulse clamped to the coil's limit", "mpf/devices/flipper.py", "            return int(pulse_ms * settings_factor)\n", "            pulse_ms = int(pulse_ms * settings_factor)\n            if self.config['main_coil'].config['max_pulse_ms']:\n                pulse_ms = min(pulse_ms, self.config['main_coil'].config['max_pulse_ms'])\n", "DOM-17"),
         M("zero-length delay runs at once", "mpf/core/delays.py", "        self.delays[name] = (self.machine.clock.schedule_once(\n            partial(self._process_delay_callback, name, callback, **kwargs),", "        if ms <= 0:\n            self._process_delay_callback(name, callback, **kwargs)\n            return name\n        self.delays[name] = (self.machine.clock.schedule_once(\n            partial(self._process_delay_callback, name, callback, **kwargs),", "PAIR-10"),
         M("zero-length delay calls the callback", "mpf/core/delays.py", "        self.delays[name] = (self.machine.clock.schedule_once(\n            partial(self._process_delay_callback, name, callback, **kwargs),", "        if not ms:\n            callback(**kwargs)\n        self.delays[name] = (self.machine.clock.schedule_once(\n            partial(self._process_delay_callback, name, callback, **kwargs),", "PAIR-10"),
         M("dead guard pulse_power", D, "if pulse_power and (pulse_power < 0 or pulse_power > 1):", "if pulse_power and 0 > pulse_power > 1:", ("DEAD-1", "DOM-17")),
